@@ -523,6 +523,19 @@ def math_result(fn, pos, *operands):
         )
 
 
+def decimal_arith(op, a, b, pos):
+    # an int beyond the range of a decimal cannot take part in decimal
+    # arithmetic; the host reports the conversion as OverflowError
+    try:
+        return ValueDecimal(op(a.asDecimal().value, b.asDecimal().value))
+    except OverflowError:
+        raise CklRuntimeError(
+            ValueString("ERROR"),
+            "Number too large for decimal arithmetic",
+            pos,
+        )
+
+
 class FuncAcos(ValueFunc):
     def __init__(self):
         super().__init__("acos")
@@ -575,7 +588,7 @@ class FuncAdd(ValueFunc):
             return ValueInt(a.value + b.value)
 
         if a.isNumerical() and b.isNumerical():
-            return ValueDecimal(a.asDecimal().value + b.asDecimal().value)
+            return decimal_arith(lambda x, y: x + y, a, b, pos)
 
         if a.isList():
             if b.isCollection():
@@ -1323,7 +1336,7 @@ class FuncDiv(ValueFunc):
                 raise CklRuntimeError(
                     ValueString("ERROR"), "divide by zero", pos
                 )
-            return ValueDecimal(a.asDecimal().value / divisor)
+            return decimal_arith(lambda x, y: x / y, a, b, pos)
 
         raise CklRuntimeError(
             ValueString("ERROR"),
@@ -2732,7 +2745,7 @@ class FuncMod(ValueFunc):
                 raise CklRuntimeError(
                     ValueString("ERROR"), "divide by zero", pos
                 )
-            return ValueDecimal(a.asDecimal().value % b.asDecimal().value)
+            return decimal_arith(lambda x, y: x % y, a, b, pos)
 
         raise CklRuntimeError(
             ValueString("ERROR"),
@@ -2787,7 +2800,7 @@ class FuncMul(ValueFunc):
             return ValueInt(a.value * b.value)
 
         if a.isNumerical() and b.isNumerical():
-            return ValueDecimal(a.asDecimal().value * b.asDecimal().value)
+            return decimal_arith(lambda x, y: x * y, a, b, pos)
 
         raise CklRuntimeError(
             ValueString("ERROR"),
@@ -4075,7 +4088,7 @@ class FuncSub(ValueFunc):
             return ValueInt(a.value - b.value)
 
         if a.isNumerical() and b.isNumerical():
-            return ValueDecimal(a.asDecimal().value - b.asDecimal().value)
+            return decimal_arith(lambda x, y: x - y, a, b, pos)
 
         raise CklRuntimeError(
             ValueString("ERROR"),
